@@ -60,6 +60,9 @@ def build(family, block, rnd):
     elif family == "routed":
         a_ip, b_ip = "10.0.1.10", "10.0.2.20"
         acl = {0: {"action": "PERMIT"}}
+        if block == "acl-added-late":
+            # the slot the blocking rule will be written into already holds a narrower rule (the block must REPLACE it, criteria and all)
+            acl = {0: {"action": "PERMIT", "protocol": "TCP", "src_ip": a_ip, "dst_ip": b_ip, "dst_port": "POSTGRES_SERVER"}, 5: {"action": "PERMIT"}}
         if block == "acl-exact-src":
             acl = {1: {"action": "DENY", "src_ip": a_ip}, 5: {"action": "PERMIT"}}
         elif block == "acl-range-src":
